@@ -7,7 +7,7 @@ package sim
 // ---- C17: the JSON single-model runner ----
 
 //@ func uniformParameters(params, n) returns (res)
-//@   locals res, i, j
+//@   locals res, i@loop, j@loop
 //@   loopsigs 7a63e881 c8db9c5f
 //@   ndmodel locations
 //@   requires n >= 0
@@ -20,14 +20,14 @@ package sim
 //@   loop 1 invariant forall(p, 0, i, forall(c, 0, n, res.elem(p, c) == params[p])) && forall(c, 0, j, res.elem(i, c) == params[i])
 
 //@ func (modelValues).Find(vals, name, defaultValue) returns (v, msg)
-//@   locals v
+//@   locals v@loop
 //@   canary [C17.canary-find] v == defaultValue
 //@   assigns nothing
 //@   ensures [C17.find-value] (exists(k, 0, len(vals), vals[k].Name == name && v == vals[k].Value && forall(q, 0, k, vals[q].Name != name))) || (forall(k, 0, len(vals), vals[k].Name != name) && v == defaultValue)
 //@   loop 0 invariant -1 <= rangeindex && rangeindex < len(vals) && forall(q, 0, rangeindex + 1, vals[q].Name != name)
 
 //@ func (modelInputs).Find(vals, name) returns (r)
-//@   locals v
+//@   locals v@loop
 //@   assigns nothing
 //@   ensures [C17.find-input] (forall(k, 0, len(vals), vals[k].Name != name) && r == nil) || exists(k, 0, len(vals), vals[k].Name == name && r == vals[k].Values && forall(q, 0, k, vals[q].Name != name))
 //@   loop 0 invariant -1 <= rangeindex && rangeindex < len(vals) && forall(q, 0, rangeindex + 1, vals[q].Name != name)
@@ -51,7 +51,7 @@ package sim
 //@   ensures s != nil && s.rank == 2 && s.dim(0) == n && s.dim(1) >= x.g_nStates && s.root == s.ref && injective(s)
 
 //@ func (singleModel).Initialise(m) returns (err, model, inputs, states, warnings)
-//@   locals warnings, factory, model, desc, params, i, p, paramValue, msg, states, inputs, i, p, thisInput
+//@   locals warnings, factory, model, desc, params, i@loop, p@loop, paramValue, msg, states, inputs, i@loop, p@loop, thisInput
 //@   loopsigs 7d73656c 38bbdfb4
 //@   ndmodel locations
 //@   safety C17
@@ -83,14 +83,14 @@ package sim
 //@   assigns nothing
 
 //@ func RunSingleModelJSON(r, w, splitOutputs)
-//@   locals runLogs, results, description, log, modelDescription, decoder, err, err, model, inputs, states, warnings, w, outputs
+//@   locals runLogs, results, description, log, modelDescription, decoder, err, err, model, inputs, states, warnings, w@loop, outputs
 //@   ndmodel locations
 //@   safety C17
 //@   assigns nothing
 //@   loop 0 invariant -1 <= rangeindex && rangeindex < len(warnings)
 
 //@ func encodeResults(w, runLogs, results, description, splitOutputs)
-//@   locals overall, outputArray, outputMap, length, i, output, singleOutput, stateArray, stateMap, i, state, singleState, encoder, err
+//@   locals overall, outputArray, outputMap, length, i@loop, output@loop, singleOutput, stateArray, stateMap, i@loop, state@loop, singleState, encoder, err
 //@   loopsigs 42956eb3 b9078ec3
 //@   ndmodel locations
 //@   safety C17
